@@ -5,7 +5,7 @@ import importlib, os, pathlib, sys, traceback
 
 VERIF = pathlib.Path(__file__).resolve().parent.parent
 REPO = pathlib.Path(os.environ.get("VERIF_REPO", "/repo"))
-GEN = VERIF / "coq" / "Gen"
+GEN = pathlib.Path(os.environ.get("VERIF_COQ_DIR") or (VERIF / "coq")) / "Gen"
 sys.path.insert(0, str(VERIF / "tools"))
 
 
@@ -16,7 +16,7 @@ def write_if_changed(name: str, text: str) -> None:
         f.write_text(text)
 
 
-GENERATORS = ["gen_helpers", "gen_consts"]
+GENERATORS = sorted(f.stem for f in (VERIF / "tools").glob("gen_*.py") if f.stem != "gen_all")
 
 
 def main() -> int:
